@@ -20,6 +20,9 @@ pub struct MemSource {
 	/// answer bbox streams from the map directly instead of the trait's default lookup loop over
 	/// every coordinate of the box (needed for sparse sets with huge level boxes)
 	pub fast_stream: bool,
+	/// environment answer: the source is not ready at once; every lookup / stream request first
+	/// returns Pending this many times (like a remote reader would)
+	pub yields: u8,
 }
 
 pub fn pyramid_of(tiles: &TileMap) -> TileBBoxPyramid {
@@ -33,10 +36,14 @@ pub fn pyramid_of(tiles: &TileMap) -> TileBBoxPyramid {
 impl MemSource {
 	pub fn new(name: &str, tiles: TileMap, format: TileFormat, compression: TileCompression) -> MemSource {
 		let pyramid = pyramid_of(&tiles);
-		MemSource { name: name.to_string(), tiles, parameters: TilesReaderParameters::new(format, compression, pyramid), tilejson: TileJSON::default(), fast_stream: false }
+		MemSource { name: name.to_string(), tiles, parameters: TilesReaderParameters::new(format, compression, pyramid), tilejson: TileJSON::default(), fast_stream: false, yields: 0 }
 	}
 	pub fn with_pyramid(mut self, p: TileBBoxPyramid) -> MemSource {
 		self.parameters.bbox_pyramid = p;
+		self
+	}
+	pub fn with_yields(mut self, n: u8) -> MemSource {
+		self.yields = n;
 		self
 	}
 	pub fn with_tilejson(mut self, t: TileJSON) -> MemSource {
@@ -66,9 +73,15 @@ impl TilesReaderTrait for MemSource {
 		&self.tilejson
 	}
 	async fn get_tile_data(&self, coord: &TileCoord3) -> Result<Option<Blob>> {
+		for _ in 0..self.yields {
+			tokio::task::yield_now().await;
+		}
 		Ok(self.tiles.get(&(coord.z, coord.x, coord.y)).map(|v| Blob::from(v.as_slice())))
 	}
 	async fn get_bbox_tile_stream(&self, bbox: TileBBox) -> TileStream {
+		for _ in 0..self.yields {
+			tokio::task::yield_now().await;
+		}
 		if self.fast_stream {
 			let v: Vec<(TileCoord3, Blob)> = self
 				.tiles
